@@ -2,12 +2,14 @@ use crate::common::Tier;
 pub mod c02;
 pub mod c18;
 pub mod c19;
+pub mod c20;
 
 pub fn run(id: &str, tier: Tier) -> i32 {
     match id {
         "C02" => c02::run(tier),
         "C18" => c18::run(tier),
         "C19" => c19::run(tier),
+        "C20" => c20::run(tier),
         _ => {
             eprintln!("no check for {id}");
             2
@@ -31,6 +33,7 @@ pub fn replay(id: &str, path: &str) -> i32 {
     match id {
         "C02" => c02::replay(&v),
         "C19" => c19::replay(&v),
+        "C20" => c20::replay(&v),
         _ => {
             eprintln!("no replay for {id}");
             2
